@@ -34,7 +34,13 @@ impl<'a> Lexer<'a> {
     }
 
     pub fn peek_many<const N: usize>(&mut self) -> Option<[&Token<'a>; N]> {
-        for _ in 0..N - self.peeked.len() {
+        while self.peeked.len() < N {
+            // The body of an f-string does not consist of ordinary tokens
+            // (the parser scans it itself), so we cannot look past its
+            // start.
+            if let Some((Ok(Token::FStringStart), _)) = self.peeked.back() {
+                return None;
+            }
             let t = self.next_inner()?;
             self.peeked.push_back(t);
         }
